@@ -311,3 +311,38 @@ func zzHTTPPool(steps int) {
 	}
 	verif.Cover("end")
 }
+
+// VerifC09_HTTPPoolClose: the HTTP/1 pool holding 1..2 idle connections is closed or shut
+// down. The call comes back - it does not block on the pool's own lock -; after Close every
+// connection is closed, none is left in the idle list, and the books equal the truth.
+func VerifC09_HTTPPoolClose() {
+	info := &zzInfo{rm: cluster.NewResourceManager(v2.CircuitBreakers{}), st: zzClusterStats()}
+	host := &zzHost{info: info, hs: zzHostStats()}
+	pool := NewConnPool(context.Background(), host).(*connPool)
+	w := &zzWorld{pool: pool, info: info, host: host}
+	verif.Replace("(*mosn.io/mosn/pkg/stream/http.connPool).createStreamClient", func(p *connPool, ctx context.Context, d types.CreateConnectionData) str.Client {
+		return w.zzNewClient(w.nextDial)
+	})
+	verif.EngineOnly("the dial is replaced by a scripted stream client")
+	n := 1 + verif.Choose("idle_connections", 2)
+	for i := 0; i < n; i++ {
+		pool.availableClients = append(pool.availableClients, w.zzDial())
+		pool.totalClientCount++
+	}
+	closing := verif.Choose("close_instead_of_shutdown", 2) == 1
+	verif.MustFinish(200000, "closing (or shutting down) an HTTP/1 pool that holds an idle connection never returns: it blocks on the pool's own lock")
+	if closing {
+		pool.Close()
+	} else {
+		pool.Shutdown()
+	}
+	verif.Finished()
+	if closing {
+		for _, c := range w.clients {
+			verif.Assert(c.closed, "Close left a connection of the pool open")
+		}
+		verif.Assert(len(pool.availableClients) == 0, "Close left a connection in the idle list")
+	}
+	w.zzCheck(0)
+	verif.Cover("end")
+}
